@@ -20,20 +20,19 @@ MANIFEST = dict(
               "functions/values/builtin meanings) + exhaustive entry-point sweep over every live builtin + form-by-form correspondence",
     text="Machine-checked theorems (Coq 8.16, no axioms) about a Gallina transcription of Func::run/run1/run2, call_or_part_apply, "
          "apply_section, splat_section_eval and the Call/Chain/List/OpAssign arms of evaluate: for every function value f (opaque "
-         "builtin, closure, partial application, flip, composition, call/chain/list section, and the transcribed builtins then . apply of "
-         "const id flip >>> <<<), all values a b c and EVERY meaning of the opaque builtins, the forms a f b, f(a,b), f! a,b, a `f` b, "
+         "builtin, closure, partial application, flip, composition, on-composition, parallel, fanout, lifted call, call/chain/list section "
+         "(hole callee included), and the transcribed builtins then . apply of const id flip >>> <<< on *** &&& lift), all values a b c and EVERY meaning of the opaque builtins, the forms a f b, f(a,b), f! a,b, a `f` b, "
          "f(_,b)(a), f(a,_)(b), (_ f b)(a), (a f _)(b), [a,b] apply f, f of [a,b], f(_,_)(a,b), f(..._)([a,b]) and (a f)(b) for non-function a "
          "evaluate to run f [a;b]; x f= b leaves run f [x;b], and for a right-hand side EXPRESSION that reads the assigned place (x f= g(x), a[i] f= a[j]; op_assign_store with the interpreter's step order explicit) the place ends up holding f(old value, rhs evaluated in the old store); one-argument calls that return PartialApp2/PartialAppLast are right sections; "
          "the 1-, 3- and n-argument analogues with bang/splat/./then/section forms (any hole layout); PartialApp1/2/Last, Flip, Composition unfold "
          "to the call they abbreviate; fuel only ever turns OutOfFuel into the answer. The model is tied to /repo on every run by (b) an exhaustive "
          "sweep of Builtin::run vs run1/run2 (and f(y)(x) vs f(x,y)) over all ~290 non-I/O global functions x all 1- and 2-tuples of a 29-value pool, "
-         "(a) ~1500 (f,a,b) cases x 11-18 surface forms through implementation and extracted model, and (c) ~750 op-assign statements whose right-hand side reads the target (plain variables and index targets) against the plain-call program. Known finding `variadic-combinator` (***, &&&, equals: the one-argument call is the unary combinator, not a right section): C04_right_section carries the premise, C04_right_section_refuted is the witness.",
+         "(a) ~1500 (f,a,b) cases x 11-18 surface forms through implementation and extracted model, and (c) ~750 op-assign statements whose right-hand side reads the target (plain variables and index targets) against the plain-call program. Known finding `variadic-combinator` (***, &&&, equals: the one-argument call is the unary combinator, not a right section): C04_right_section carries the premise, C04_right_section_refuted is the witness, and C04_variadic_combinators_not_sections / C04_equals_curried prove it of the transcribed *** &&& and of OnFanoutConst(==, args); lift and on ARE sections (C04_lift_is_section, C04_known_right_section).",
     note="Trusted: Coq kernel; the hand-written model Dispatch/Apply.v (tie to code = the correspondence run, i.e. differential testing); "
          "extraction + OCaml runner; Rust harness; Python renderer. An opaque builtin's one- and two-argument entry points are DEFINED from its "
          "vector entry point in the model: per-builtin agreement of the ~45 hand-written run1/run2 overrides is established by sweep (b) only, "
          "on the pool, not by proof. Parser-only distinctions (bang, backtick, juxtaposition) are the same AST in the model and are compared by "
-         "correspondence only. Not modelled: _(a,b) call sections with a hole callee, chain sections with more than one operator (C03), "
-         "index/slice/update sections, Parallel/Fanout/OnFanoutConst/Memoized. I/O, clock, random, process builtins are excluded from the sweep by name.",
+         "correspondence only. Not modelled: chain sections with more than one operator (C03), index/slice/update sections, Memoized/Type/StructField. I/O, clock, random, process builtins are excluded from the sweep by name.",
     design="6-C04")
 
 POOL = ["null", "0", "1", "2", "0-3", "1000", "7//2", "2^70", "1/2", "0-7/3", "2.5", "0.0-1.5", "1.0+2i",
@@ -237,6 +236,8 @@ def forms_for(c):
             "part_splat": ([], "f(a, ...[b])", "(eval (call f a (splat (list b))))"),
             "opassign": (["x := a", "x f= b"], "x", "(let x a) (opassign x f b)"),
         }
+        F["hole_callee"] = ([], "_(a, b)(f)", "(eval (call (callhole a b) f))")
+        F["hole_callee_mask"] = ([], "_(_, b)(f, a)", "(eval (call (callhole _ b) f a))")
         if not c.a_is_func:
             F["juxt"] = ([], "(a f)(b)", "(eval (call (call a f) b))")
         if c.curried:
@@ -255,6 +256,7 @@ def forms_for(c):
             "splat_hole": ([], "f(..._)([a])", "(eval (call (call f (splat _)) (list a)))"),
             "apply": ([], "[a] apply f", "(eval (chain (list a) (K apply) f))"),
             "of": ([], "f of [a]", "(eval (chain f (K of) (list a)))"),
+            "hole_callee": ([], "_(a)(f)", "(eval (call (callhole a) f))"),
         }
     F = {
         "call": ([], "f(a, b, c)", "(eval (call f a b c))"),
@@ -266,6 +268,8 @@ def forms_for(c):
         "apply": ([], "[a, b, c] apply f", "(eval (chain (list a b c) (K apply) f))"),
         "of": ([], "f of [a, b, c]", "(eval (chain f (K of) (list a b c)))"),
     }
+    F["hole_callee"] = ([], "_(a, b, c)(f)", "(eval (call (callhole a b c) f))")
+    F["hole_callee_mask"] = ([], "_(a, _, c)(f, b)", "(eval (call (callhole a _ c) f b))")
     for mask in range(1, 8):
         hs = [bool(mask & 4), bool(mask & 2), bool(mask & 1)]
         ins = ", ".join("_" if h else v for h, v in zip(hs, "abc"))
@@ -411,7 +415,7 @@ def gen_dispatch_cases(ctx, sweep, names, pool, big):
         g = rng.choice(two)
         t = [rng.choice(data_idx) for _ in range(3)]
         which = rng.choice(["flip", "flipc", "compr", "compl", "pl", "p2", "p1", "known_then", "known_apply", "known_of", "known_const",
-                            "flip_known", "flip1", "id1", "comp1"])
+                            "flip_known", "flip1", "id1", "comp1", "fanout", "parallel", "on", "lift"])
         gm = sweep.get(g, {}).get("one_kinds", {})
 
         def gb(args):
@@ -466,6 +470,24 @@ def gen_dispatch_cases(ctx, sweep, names, pool, big):
             c = Case("f=flip", [gb([]), ("f", "flip", "(K flip)"), ("a", "g", "g")], "known", True, arity=1)
         elif which == "id1":
             c = Case("f=id", [("f", "id", "(K id)")] + data_bindings(t[:1]), "known", t[0] in IS_FUNC, arity=1)
+        elif which == "fanout":      # g &&& h : \\...args -> [g(...args), h(...args)]
+            h = rng.choice(two)
+            c = Case("%s &&& %s" % (g, h), [gb(ab), ("h", h, "(B h () ())"), ("f", "g &&& h", "(chain g (Q fanout) h)")] + data_bindings(t[:2]),
+                     "combinator", t[0] in IS_FUNC)
+        elif which == "parallel":    # g *** h : \\a, b -> [g(a), h(b)]
+            g1, h = rng.choice(one), rng.choice(one)
+            c = Case("%s *** %s" % (g1, h), [("g", g1, "(B g () ())"), ("h", h, "(B h () ())"), ("f", "g *** h", "(chain g (Q parallel) h)")]
+                     + data_bindings(t[:2]), "combinator", t[0] in IS_FUNC)
+        elif which == "on":          # g on h : \\a, b -> g(h(a), h(b))
+            h = rng.choice(one)
+            c = Case("%s on %s" % (g, h), [gb([]), ("h", h, "(B h () ())"), ("f", "g on h", "(chain g (K on) h)")] + data_bindings(t[:2]),
+                     "combinator", t[0] in IS_FUNC)
+        elif which == "lift":        # lift(h, k, g) : \\...args -> g(h(...args), k)
+            h = rng.choice(two)
+            if t[2] in IS_FUNC:
+                continue
+            c = Case("lift(%s, k, %s)" % (h, g), [gb([]), ("h", h, "(B h () ())"), ("k", POOL[t[2]], None), ("f", "lift(h, k, g)", "(call (Q lift) h k g)")]
+                     + data_bindings(t[:2]), "combinator", t[0] in IS_FUNC)
         elif which == "comp1":
             h = rng.choice(one)
             h2 = rng.choice(one)
